@@ -24,6 +24,26 @@ INT_PARAMS = {'_directional_min_moving_avg': (1, 2), '_determine_fits': (1, 2), 
 
 
 def make_data(N, xkind):
+    xkind, _, mods = xkind.partition('+')
+    x, y = _make_data(N, xkind)
+    for m in mods.split('+'):
+        if m == 'big':
+            y = y * 1e300
+        elif m == 'tiny':
+            y = y * 1e-300
+        elif m == 'negstride':                      # reversed views of reversed copies: same values, stride < 0
+            x, y = x[::-1].copy()[::-1], y[::-1].copy()[::-1]
+        elif m == 'strided':                        # every second element of a larger buffer
+            bx, by = np.zeros(2 * N), np.zeros(2 * N)
+            bx[::2], by[::2] = x, y
+            x, y = bx[::2], by[::2]
+        elif m == 'fortran2d':                      # a column of a Fortran-ordered matrix
+            my = np.asfortranarray(np.tile(y[None, :], (3, 1)))
+            y = my[1]
+    return x, y
+
+
+def _make_data(N, xkind):
     x = np.arange(N, dtype=float)
     if xkind == 'lastgap' and N >= 2:
         x[-1] = x[-2] + 10.0 * N
@@ -107,6 +127,37 @@ def decode(kw, N):
     return out
 
 
+def classify(exc, nojit):
+    if isinstance(exc, IndexError) and from_kernel(exc, nojit):
+        return 'indexerror', f'{exc} @ {traceback.extract_tb(exc.__traceback__)[-1].name}'
+    if isinstance(exc, IndexError):
+        return 'raised', 'IndexError(python level)'
+    return 'raised', type(exc).__name__
+
+
+def run_history(kw, nojit, bad):
+    """a sequence of public calls on ONE Baseline object; worst outcome of the steps"""
+    from pybaselines import Baseline
+    x0 = kw.get('x0')
+    fitter = Baseline() if x0 is None else Baseline(np.arange(int(x0), dtype=float))
+    status, msgs = 'ok', []
+    for k, (method, N, skw) in enumerate(kw['steps']):
+        _, y = make_data(int(N), 'uniform')
+        try:
+            getattr(fitter, method)(y, **decode(skw, N))
+            st, msg = 'ok', ''
+        except Exception as exc:  # noqa
+            st, msg = classify(exc, nojit)
+        if bad and st != 'indexerror':
+            st, msg = 'negative-index', f'{bad[0][0]}: wrapped negative subscript {bad[0][1]}'
+        msgs.append(f'step{k}:{st}:{msg}')
+        if st in ('indexerror', 'negative-index'):
+            return st, '; '.join(msgs)
+        if st == 'raised':
+            status = 'raised'
+    return status, '; '.join(msgs)
+
+
 def main():
     jobs = json.loads(sys.stdin.read())
     nojit = os.environ.get('NUMBA_DISABLE_JIT') == '1'
@@ -119,6 +170,12 @@ def main():
         try:
             with warnings.catch_warnings(), np.errstate(all='ignore'):
                 warnings.simplefilter('ignore')
+                if method == 'HIST':
+                    st, msg = run_history(kw, nojit, bad)
+                    out['status'], out['msg'] = st, msg
+                    sys.stdout.write(json.dumps(out) + '\n')
+                    sys.stdout.flush()
+                    continue
                 if method.startswith('F:'):
                     import pybaselines.api  # noqa
                     import importlib
